@@ -51,7 +51,8 @@ def ColsRT (W : Out → Except Err Out) (segs : List Str) (ty : Ty) (v : Val) : 
   ∃ (cols : List (List Str × Str)) (tr : Tree),
     cols ≠ [] ∧ (∀ c ∈ cols, ∀ s ∈ c.1, SegOk s) ∧ (cols.map (·.1)).Nodup ∧
     (∀ out, Fresh segs out → W out = .ok (out ++ absCols segs cols)) ∧
-    pfold ty .none (inlCols cols) = .ok tr ∧ validate ty tr = .ok v
+    pfold ty .none (inlCols cols) = .ok tr ∧ validate ty tr = .ok v ∧
+    (isBasicVal v = true → cols = [([], printBasic v)])
 
 def PosRT (lay : Layout) (ty : Ty) (v : Val) (segs : List Str) : Prop :=
   ColsRT (unparseRec lay ty v (pathStr segs)) segs ty v
@@ -83,18 +84,19 @@ theorem colsRT_of_pack {W : Out → Except Err Out} {segs : List Str} {ty : Ty} 
     (hp : PackRT ty v) (hW : ∀ out, W out = writeValue ty v (pathStr segs) out) :
     ColsRT W segs ty v := by
   obtain ⟨text, tr, hw, hl, hv⟩ := hp
-  refine ⟨[([], text)], tr, by simp, by simp, by simp, ?_, ?_, hv⟩
+  refine ⟨[([], text)], tr, by simp, by simp, by simp, ?_, ?_, hv, ?_⟩
   · intro out hf
     rw [hW, hw]
     have := fresh_absent hf
     simp only [keyOf] at this
     simp [writeOut, this, absCols, keyOf]
   · simp [pfold, inlCols, foldE, pstep, hl]
+  · intro hb
+    have := hw [] []
+    simp [writeValue, hb, writeOut, alookup] at this
+    rw [this]
 
 /-! ### the fields of a record -/
-
-/-- the header segment a field is written under -/
-def hdr (f2h : List (Str × Str)) (p : SPair) : Str := remap f2h p.1.1
 
 /-- what `unparse_row_recurse` does for one non-default field -/
 def fieldW (lay : Layout) (f2h : List (Str × Str)) (segs : List Str) (p : SPair) :
@@ -111,14 +113,16 @@ def FieldsSpec (lay : Layout) (fs : List Field) (h2f f2h : List (Str × Str)) (s
       unparseFields lay f2h (pathStr segs) (pairs.map (·.1)) kvs out =
         .ok (out ++ absCols segs cols)) ∧
   (∀ c ∈ cols, ∃ p ∈ pairs, nonDefault p = true ∧
-      ∃ r, c.1 = hdr f2h p :: r ∧ ∀ s ∈ r, SegOk s) ∧
+      ∃ r, c.1 = hdr f2h p :: r ∧ (∀ s ∈ r, SegOk s) ∧ (hdr f2h p ≠ p.1.1 → r = [])) ∧
   (cols.map (·.1)).Nodup ∧
   (∀ acc, (∀ p ∈ pairs, alookup p.1.1 acc = none) →
       pfold (.model fs h2f f2h) (.dict acc) (inlCols cols) = .ok (.dict (acc ++ trs))) ∧
   (∀ kv ∈ trs, kv.1 ∈ pairs.map (·.1.1) ∧ kv.2.isNone = false) ∧
   (∀ p ∈ pairs, (alookup p.1.1 trs = none ∧ p.1.2.2 = some p.2) ∨
       (∃ tr, alookup p.1.1 trs = some tr ∧ validate p.1.2.1 tr = .ok p.2)) ∧
-  (cols = [] → ∀ p ∈ pairs, nonDefault p = false)
+  (cols = [] → ∀ p ∈ pairs, nonDefault p = false) ∧
+  (∀ p ∈ pairs, nonDefault p = true → isBasicVal p.2 = true →
+      ([hdr f2h p], printBasic p.2) ∈ cols)
 
 theorem fresh_sibling' {segs : List Str} {m m' : Str} (hm : SegOk m) (hm' : SegOk m')
     (hd : m' ≠ m) (cols : List (List Str × Str)) :
@@ -149,8 +153,20 @@ theorem nodup_under_append {m : Str} {a : List (List Str × Str)} {b : List (Lis
     obtain ⟨c0, _, rfl⟩ := List.mem_map.mp hc
     exact hd c' hc' c0.1 hxy.symm
 
+theorem writeValue_single (ty : Ty) (v : Val) (pfx : Str) (out' : Out)
+    (h : writeValue ty v pfx [] = .ok out') : ∃ text, out' = [(trimPrefix pfx, text)] := by
+  unfold writeValue at h
+  split at h
+  · simp [writeOut, alookup] at h; exact ⟨_, h.symm⟩
+  · split at h
+    · cases h
+    · split at h
+      · cases h
+      · simp [writeOut, alookup] at h; exact ⟨_, h.symm⟩
+
 theorem fields_spec (lay : Layout) (he : lay.excluded = []) (fs : List Field)
-    (h2f f2h : List (Str × Str)) (segs : List Str) (kvs : List (Str × Val)) :
+    (h2f f2h : List (Str × Str)) (segs : List Str) (hsegs : ∀ s ∈ segs, SegOk s)
+    (kvs : List (Str × Val)) :
     ∀ (pairs : List SPair),
       (pairs.map (·.1.1)).Nodup →
       ((pairs.filter nonDefault).map (hdr f2h)).Nodup →
@@ -159,7 +175,7 @@ theorem fields_spec (lay : Layout) (he : lay.excluded = []) (fs : List Field)
         ColsRT (fieldW lay f2h segs p) (segs ++ [hdr f2h p]) p.1.2.1 p.2)) →
       ∃ cols trs, FieldsSpec lay fs h2f f2h segs kvs pairs cols trs
   | [], _, _, _ => by
-    refine ⟨[], [], ?_, ?_, ?_, ?_, ?_, ?_, ?_⟩
+    refine ⟨[], [], ?_, ?_, ?_, ?_, ?_, ?_, ?_, ?_⟩
     · intro out _; simp [unparseFields, absCols]
     · intro c h; simp at h
     · simp
@@ -167,6 +183,7 @@ theorem fields_spec (lay : Layout) (he : lay.excluded = []) (fs : List Field)
     · intro kv h; simp at h
     · intro p h; simp at h
     · intro _ p h; simp at h
+    · intro p h; simp at h
   | ((n, ty, d), v) :: rest, hnd, hhd, hp => by
     have hnd' : (rest.map (·.1.1)).Nodup := (List.nodup_cons.mp hnd).2
     have hn_notin : n ∉ rest.map (·.1.1) := (List.nodup_cons.mp hnd).1
@@ -175,8 +192,8 @@ theorem fields_spec (lay : Layout) (he : lay.excluded = []) (fs : List Field)
     | false =>
       have hhd' : ((rest.filter nonDefault).map (hdr f2h)).Nodup := by
         simpa [List.filter, hdef] using hhd
-      obtain ⟨cols', trs', hU', hK', hN', hP', hT', hV', hE'⟩ :=
-        fields_spec lay he fs h2f f2h segs kvs rest hnd' hhd'
+      obtain ⟨cols', trs', hU', hK', hN', hP', hT', hV', hE', hB'⟩ :=
+        fields_spec lay he fs h2f f2h segs hsegs kvs rest hnd' hhd'
           (fun p hp' => hp p (List.mem_cons_of_mem _ hp'))
       have hisdef : isDefault d v = true := by simpa [nonDefault] using hdef
       have hlook_trs' : alookup n trs' = none := by
@@ -184,7 +201,7 @@ theorem fields_spec (lay : Layout) (he : lay.excluded = []) (fs : List Field)
         intro hm
         obtain ⟨kv, hkv, hkn⟩ := List.mem_map.mp hm
         exact hn_notin (hkn ▸ (hT' kv hkv).1)
-      refine ⟨cols', trs', ?_, ?_, hN', ?_, ?_, ?_, ?_⟩
+      refine ⟨cols', trs', ?_, ?_, hN', ?_, ?_, ?_, ?_, ?_⟩
       · intro out hout
         simp only [List.map_cons, unparseFields, hlook, hisdef, if_true]
         exact hU' out (fun p hp' => hout p (List.mem_cons_of_mem _ hp'))
@@ -207,15 +224,20 @@ theorem fields_spec (lay : Layout) (he : lay.excluded = []) (fs : List Field)
         rcases hp' with rfl | hp'
         · exact hdef
         · exact hE' hc p hp'
+      · intro p hp' hpn hpb
+        simp only [List.mem_cons] at hp'
+        rcases hp' with rfl | hp'
+        · rw [hdef] at hpn; cases hpn
+        · exact hB' p hp' hpn hpb
     | true =>
       have hfil : (((n, ty, d), v) :: rest).filter nonDefault =
           ((n, ty, d), v) :: rest.filter nonDefault := by simp [List.filter, hdef]
       rw [hfil, List.map_cons, List.nodup_cons] at hhd
       obtain ⟨hm_notin, hhd'⟩ := hhd
-      obtain ⟨cols', trs', hU', hK', hN', hP', hT', hV', hE'⟩ :=
-        fields_spec lay he fs h2f f2h segs kvs rest hnd' hhd'
+      obtain ⟨cols', trs', hU', hK', hN', hP', hT', hV', hE', hB'⟩ :=
+        fields_spec lay he fs h2f f2h segs hsegs kvs rest hnd' hhd'
           (fun p hp' => hp p (List.mem_cons_of_mem _ hp'))
-      obtain ⟨hsm, hback, hfl, colsP, tr, hne, hS, hN, hU, hP, hVal⟩ := hrt hdef
+      obtain ⟨hsm, hback, hfl, colsP, tr, hne, hS, hN, hU, hP, hVal, hBas⟩ := hrt hdef
       have hisdef : isDefault d v = false := by simpa [nonDefault] using hdef
       have hmne : ∀ q ∈ rest, nonDefault q = true → hdr f2h q ≠ hdr f2h ((n, ty, d), v) := by
         intro q hq hqn e
@@ -226,7 +248,7 @@ theorem fields_spec (lay : Layout) (he : lay.excluded = []) (fs : List Field)
         obtain ⟨kv, hkv, hkn⟩ := List.mem_map.mp hm
         exact hn_notin (hkn ▸ (hT' kv hkv).1)
       refine ⟨under (hdr f2h ((n, ty, d), v)) colsP ++ cols', (n, tr) :: trs',
-        ?_, ?_, ?_, ?_, ?_, ?_, ?_⟩
+        ?_, ?_, ?_, ?_, ?_, ?_, ?_, ?_⟩
       · intro out hout
         simp only [List.map_cons, unparseFields, hlook, hisdef, Bool.false_eq_true, if_false]
         have hfw : (if n = remap f2h n then
@@ -247,7 +269,36 @@ theorem fields_spec (lay : Layout) (he : lay.excluded = []) (fs : List Field)
       · intro c hc
         rcases List.mem_append.mp hc with h | h
         · obtain ⟨c0, hc0, rfl⟩ := List.mem_map.mp h
-          exact ⟨((n, ty, d), v), by simp, hdef, c0.1, rfl, hS c0 hc0⟩
+          refine ⟨((n, ty, d), v), by simp, hdef, c0.1, rfl, hS c0 hc0, ?_⟩
+          intro hrm
+          have hne' : ¬ n = remap f2h n := fun e => hrm e.symm
+          have h0 := hU [] (by intro kv hkv; simp at hkv)
+          simp only [fieldW, hne', if_false, List.nil_append] at h0
+          obtain ⟨text, ht⟩ := writeValue_single _ _ _ _ h0
+          cases colsP with
+          | nil => exact absurd rfl hne
+          | cons c1 cs =>
+            cases cs with
+            | cons c2 cs' => simp [absCols] at ht
+            | nil =>
+              simp only [List.mem_singleton] at hc0
+              subst hc0
+              simp only [absCols, List.map_cons, List.map_nil, List.cons.injEq, Prod.mk.injEq,
+                and_true] at ht
+              have hso : ∀ x ∈ segs ++ [hdr f2h ((n, ty, d), v)], SegOk x := by
+                intro x hx
+                rcases List.mem_append.mp hx with h | h
+                · exact hsegs x h
+                · simp only [List.mem_singleton] at h; subst h; exact hsm
+              have := keyOf_inj (p := (segs ++ [hdr f2h ((n, ty, d), v)]) ++ c0.1)
+                (q := segs ++ [hdr f2h ((n, ty, d), v)]) (by simp) (by simp)
+                (by
+                  intro x hx
+                  rcases List.mem_append.mp hx with h | h
+                  · exact hso x h
+                  · exact hS c0 (by simp) x h)
+                hso (by simpa [keyOf, hdr] using ht.1)
+              simpa using this
         · obtain ⟨p, hp', h'⟩ := hK' c h
           exact ⟨p, List.mem_cons_of_mem _ hp', h'⟩
       · apply nodup_under_append hN hN'
@@ -292,5 +343,12 @@ theorem fields_spec (lay : Layout) (he : lay.excluded = []) (fs : List Field)
         cases colsP with
         | nil => exact hne rfl
         | cons c cs => simp [under] at hc
+      · intro p hp' hpn hpb
+        simp only [List.mem_cons] at hp'
+        rcases hp' with rfl | hp'
+        · apply List.mem_append_left
+          rw [hBas hpb]
+          simp [under]
+        · exact List.mem_append_right _ (hB' p hp' hpn hpb)
 
 end Rpft.Row
